@@ -1,15 +1,5 @@
 // ---- spec side of PSCORE: the position after reading a text (written from the property: "line and UTF-16
 // ---- column, across line breaks and non-BMP characters") ----
-spec fn adv_line(line: int, t: Seq<char>) -> int
-    decreases t.len(),
-{
-    if t.len() == 0 { line } else { adv_line(if t[0] == '\n' { line + 1 } else { line }, t.skip(1)) }
-}
-spec fn adv_col(col: int, t: Seq<char>) -> int
-    decreases t.len(),
-{
-    if t.len() == 0 { col } else { adv_col(if t[0] == '\n' { 0 } else { col + utf16_len(t[0]) }, t.skip(1)) }
-}
 impl<'s> ParseState<'s> {
     spec fn src(&self) -> Seq<char> { self.whole_str@ }
     /// the cursor is on a character boundary
@@ -40,33 +30,6 @@ impl<'s> ParseState<'s> {
 }
 
 // ---- lemmas ----
-proof fn lemma_boff_lt(s: Seq<char>, i: int, j: int)
-    requires 0 <= i < j,
-    ensures boff(s, i) < boff(s, j),
-    decreases j,
-{
-    if j - 1 > i { lemma_boff_lt(s, i, j - 1); }
-}
-proof fn lemma_boff_inj(s: Seq<char>, i: int, j: int)
-    requires 0 <= i, 0 <= j, boff(s, i) == boff(s, j),
-    ensures i == j,
-{
-    if i < j { lemma_boff_lt(s, i, j); } else if j < i { lemma_boff_lt(s, j, i); }
-}
-proof fn lemma_boff_skip(s: Seq<char>, a: int, k: int)
-    requires 0 <= a, 0 <= k, a + k <= s.len(),
-    ensures boff(s.skip(a), k) == boff(s, a + k) - boff(s, a),
-    decreases k,
-{
-    if k > 0 { lemma_boff_skip(s, a, k - 1); }
-}
-proof fn lemma_boff_take(s: Seq<char>, n: int, k: int)
-    requires 0 <= k <= n <= s.len(),
-    ensures boff(s.take(n), k) == boff(s, k),
-    decreases k,
-{
-    if k > 0 { lemma_boff_take(s, n, k - 1); }
-}
 proof fn lemma_ci(ps: &ParseState)
     requires ps.wf(),
     ensures 0 <= ps.ci() <= ps.src().len(), boff(ps.src(), ps.ci()) == ps.cur_index,
@@ -78,61 +41,8 @@ proof fn lemma_ci_unique(ps: &ParseState, i: int)
 {
     lemma_boff_inj(ps.src(), i, ps.ci());
 }
-proof fn lemma_count_split(a: Seq<char>, b: Seq<char>)
-    ensures count_nl(a + b) == count_nl(a) + count_nl(b), u16len(a + b) == u16len(a) + u16len(b), count_nl(b) >= 0, u16len(b) >= 0,
-    decreases b.len(),
-{
-    if b.len() == 0 { assert(a + b =~= a); } else {
-        assert((a + b).drop_last() =~= a + b.drop_last());
-        lemma_count_split(a, b.drop_last());
-    }
-}
-proof fn lemma_adv_push(line: int, col: int, t: Seq<char>, c: char)
-    ensures
-        adv_line(line, t.push(c)) == (if c == '\n' { adv_line(line, t) + 1 } else { adv_line(line, t) }),
-        adv_col(col, t.push(c)) == (if c == '\n' { 0 } else { adv_col(col, t) + utf16_len(c) }),
-    decreases t.len(),
-{
-    if t.len() == 0 {
-        reveal_with_fuel(adv_line, 2);
-        reveal_with_fuel(adv_col, 2);
-        assert(t.push(c).skip(1) =~= Seq::<char>::empty());
-    } else {
-        assert(t.push(c).skip(1) =~= t.skip(1).push(c));
-        lemma_adv_push(if t[0] == '\n' { line + 1 } else { line }, if t[0] == '\n' { 0 } else { col + utf16_len(t[0]) }, t.skip(1), c);
-    }
-}
-/// closed form of the position after a text: lines are counted, the column restarts after the last newline
-proof fn lemma_adv_closed(line: int, col: int, t: Seq<char>)
-    ensures
-        adv_line(line, t) == line + count_nl(t),
-        last_nl(t) < 0 ==> adv_col(col, t) == col + u16len(t) && count_nl(t) == 0,
-        last_nl(t) >= 0 ==> adv_col(col, t) == u16len(t.skip(last_nl(t) + 1)) && count_nl(t) > 0 && last_nl(t) < t.len(),
-        count_nl(t) >= 0,
-    decreases t.len(),
-{
-    if t.len() > 0 {
-        let p = t.drop_last();
-        let c = t.last();
-        lemma_adv_closed(line, col, p);
-        assert(p.push(c) =~= t);
-        lemma_adv_push(line, col, p, c);
-        if c == '\n' {
-            assert(t.skip(t.len() as int) =~= Seq::<char>::empty());
-        } else if last_nl(p) >= 0 {
-            assert(t.skip(last_nl(p) + 1).drop_last() =~= p.skip(last_nl(p) + 1));
-        }
-    }
-}
 /// character index of byte offset b in s (meaningful when b is a boundary)
 spec fn bi(s: Seq<char>, b: int) -> int { choose|i: int| 0 <= i <= s.len() && boff(s, i) == b }
-proof fn lemma_boff_le(s: Seq<char>, i: int, j: int)
-    requires 0 <= i <= j,
-    ensures boff(s, i) <= boff(s, j), 0 <= boff(s, i),
-    decreases j,
-{
-    if i < j { lemma_boff_le(s, i, j - 1); } else if i > 0 { lemma_boff_le(s, i - 1, i - 1); }
-}
 /// everything skip_bytes needs about the piece it skips, in one place
 proof fn lemma_skip_piece(ps: &ParseState, count: int)
     requires ps.wf(), ps.fits(), is_boundary(ps.rest(), count),
@@ -163,35 +73,6 @@ proof fn lemma_skip_piece(ps: &ParseState, count: int)
     lemma_count_split(sk, r0.skip(k));
     lemma_count_split(Seq::<char>::empty(), sk);
     assert(Seq::<char>::empty() + sk =~= sk);
-}
-/// the piece after its last newline
-proof fn lemma_last_line(sk: Seq<char>)
-    requires last_nl(sk) >= 0,
-    ensures ({
-        let l = last_nl(sk);
-        &&& 0 <= l < sk.len() && sk[l] == '\n'
-        &&& boff(sk, l + 1) == boff(sk, l) + 1
-        &&& boff(sk, l + 1) <= boff(sk, sk.len() as int)
-        &&& forall|i: int| 0 <= i <= sk.len() && boff(sk, i) == boff(sk, l) + 1 ==> i == l + 1
-        &&& u16len(sk.skip(l + 1)) <= u16len(sk) && u16len(sk.skip(l + 1)) >= 0
-    }),
-    decreases sk.len(),
-{
-    let l = last_nl(sk);
-    lemma_last_nl_props(sk);
-    lemma_boff_le(sk, l + 1, sk.len() as int);
-    assert forall|i: int| 0 <= i <= sk.len() && boff(sk, i) == boff(sk, l) + 1 implies i == l + 1 by { lemma_boff_inj(sk, i, l + 1); }
-    assert(sk =~= sk.take(l + 1) + sk.skip(l + 1));
-    lemma_count_split(sk.take(l + 1), sk.skip(l + 1));
-    lemma_count_split(Seq::<char>::empty(), sk.take(l + 1));
-    assert(Seq::<char>::empty() + sk.take(l + 1) =~= sk.take(l + 1));
-}
-proof fn lemma_last_nl_props(sk: Seq<char>)
-    requires last_nl(sk) >= 0,
-    ensures 0 <= last_nl(sk) < sk.len(), sk[last_nl(sk)] == '\n',
-    decreases sk.len(),
-{
-    if sk.len() > 0 && sk.last() != '\n' { lemma_last_nl_props(sk.drop_last()); }
 }
 
 // ---- whitespace skipping as a function of the remaining text ----
@@ -240,19 +121,6 @@ proof fn lemma_advanced_trans(a: &ParseState, b: &ParseState, c: &ParseState, k1
     assert(b.rest() =~= r.skip(k1));
     assert(r.take(k1 + k2) =~= r.take(k1) + b.rest().take(k2));
     lemma_adv_split(a.line as int, a.utf16_col as int, r.take(k1), b.rest().take(k2));
-}
-proof fn lemma_adv_split(line: int, col: int, a: Seq<char>, b: Seq<char>)
-    ensures
-        adv_line(line, a + b) == adv_line(adv_line(line, a), b),
-        adv_col(col, a + b) == adv_col(adv_col(col, a), b),
-    decreases a.len(),
-{
-    if a.len() == 0 {
-        assert(a + b =~= b);
-    } else {
-        assert((a + b).skip(1) =~= a.skip(1) + b);
-        lemma_adv_split(if a[0] == '\n' { line + 1 } else { line }, if a[0] == '\n' { 0 } else { col + utf16_len(a[0]) }, a.skip(1), b);
-    }
 }
 /// moving by nothing is a (trivial) advance
 proof fn lemma_advanced_refl(a: &ParseState)
@@ -318,28 +186,6 @@ proof fn lemma_ws_step(line: int, col: int, r0: Seq<char>, k: int)
     reveal_with_fuel(count_nl, 2);
     reveal_with_fuel(u16len, 2);
     assert(seq![r0[k]].drop_last() =~= Seq::<char>::empty());
-}
-proof fn lemma_boff_prefix(a: Seq<char>, b: Seq<char>, i: int)
-    requires 0 <= i <= a.len(), i <= b.len(), a.take(i) == b.take(i),
-    ensures boff(a, i) == boff(b, i),
-    decreases i,
-{
-    if i > 0 {
-        assert(a.take(i - 1) =~= a.take(i).take(i - 1));
-        assert(b.take(i - 1) =~= b.take(i).take(i - 1));
-        assert(a[i - 1] == a.take(i)[i - 1]);
-        assert(b[i - 1] == b.take(i)[i - 1]);
-        lemma_boff_prefix(a, b, i - 1);
-    }
-}
-/// a string that is a prefix of the remaining text ends on a character boundary of it, at its own byte length
-proof fn lemma_prefix_boundary(s: Seq<char>, r: Seq<char>)
-    requires s.is_prefix_of(r),
-    ensures boff(r, s.len() as int) == boff(s, s.len() as int), is_boundary(r, boff(s, s.len() as int)), s.len() <= r.len(), r.take(s.len() as int) == s,
-{
-    assert(r.take(s.len() as int) =~= s) by { assert(s =~= r.subrange(0, s.len() as int)); }
-    assert(s.take(s.len() as int) =~= s);
-    lemma_boff_prefix(r, s, s.len() as int);
 }
 impl<'s> ParseState<'s> {
     /// the text in front of the cursor after the automatic whitespace skipping
